@@ -465,6 +465,48 @@ m = g(r.sub, p.sub) && r.obj == p.obj && r.act == p.act
 		}
 		c.Count("hostile-cycle")
 	}
+	// several policy types of DIFFERENT widths under the ordering effects: the domain / priority
+	// column of one type must never be applied to the rules of another (a narrower type would be
+	// indexed past its end while the loaded policy is sorted)
+	for _, eff := range []string{"subjectPriority(p.eft) || deny", "priority(p.eft) || deny"} {
+		for _, pdefs := range []string{
+			"p = sub, dom, obj, act, eft\np2 = sub, eft",
+			"p = priority, sub, dom, obj, act, eft\np2 = sub, eft\np3 = sub, obj, priority",
+			"p = sub, eft\np2 = sub, obj, act, dom, eft",
+		} {
+			text := "[request_definition]\nr = sub, dom, obj, act\n[policy_definition]\n" + pdefs + "\n[role_definition]\ng = _, _, _\n[policy_effect]\ne = " + eff +
+				"\n[matchers]\nm = g(r.sub, p.sub, r.dom) && r.sub == p.sub\n"
+			pol := "p2, alice, allow\np2, bob, deny\np2, carol, allow\ng, alice, admin, d1\ng, admin, root, d1\ng, bob, admin, d2\n"
+			switch {
+			case strings.HasPrefix(pdefs, "p = sub, dom"):
+				pol += "p, admin, d1, data1, read, allow\np, root, d1, data1, read, deny\np, alice, d2, data1, read, allow\n"
+			case strings.HasPrefix(pdefs, "p = priority"):
+				pol += "p, 2, admin, d1, data1, read, allow\np, 1, root, d1, data1, read, deny\np3, alice, data1, 5\np3, bob, data1, 1\np3, carol, data2, 3\n"
+			default:
+				pol += "p, zed, allow\np, alice, deny\n"
+				pol = strings.Replace(pol, "p2, alice, allow\np2, bob, deny\np2, carol, allow\n", "p2, alice, data1, read, d1, allow\np2, admin, data1, read, d1, deny\np2, root, data1, read, d2, allow\n", 1)
+			}
+			if s := c03Guarded(func() {
+				mm, err := model.NewModelFromString(text)
+				if err != nil {
+					return
+				}
+				e, err := casbin.NewEnforcer(mm, stringadapter.NewAdapter(pol))
+				if err == nil && e != nil {
+					for _, sub := range []string{"alice", "bob", "root"} {
+						ok, err := e.Enforce(sub, "d1", "data1", "read")
+						if err != nil && ok {
+							panic("error with decision true")
+						}
+					}
+					_ = e.LoadPolicy()
+				}
+			}); s != "" {
+				c.Direct("c03.multitype", "loading policy types of different widths under "+eff+": "+s, pdefs+" | "+pol)
+			}
+			c.Count("hostile-multitype-load")
+		}
+	}
 	// the self-referential eval rule (F29 repaired: must be an error, not a dead process)
 	{
 		text := "[request_definition]\nr = sub, obj, act\n[policy_definition]\np = sub_rule, obj, act\n[policy_effect]\ne = some(where (p.eft == allow))\n[matchers]\nm = eval(p.sub_rule) && r.obj == p.obj && r.act == p.act\n"
